@@ -66,9 +66,9 @@ type src struct {
 	pi, pb int
 }
 
-func recSrc(rt *rapid.T) *src  { return &src{rt: rt, tape: &Tape{}} }
-func playSrc(tp Tape) *src     { return &src{tape: &tp} }
-func (s *src) recorded() Tape  { return *s.tape }
+func recSrc(rt *rapid.T) *src { return &src{rt: rt, tape: &Tape{}} }
+func playSrc(tp Tape) *src    { return &src{tape: &tp} }
+func (s *src) recorded() Tape { return *s.tape }
 
 // Int draws an integer in [lo,hi].
 func (s *src) Int(lo, hi int64) int64 {
